@@ -517,6 +517,29 @@ func c10Run(c c10Case) (v vVerdict) {
 		return vFailf("configure-rejected", "%v", err)
 	}
 	e.mon = &vMonitor{}
+	var zeroBlock int64 // number (from 1) of the first block that was all zeros although the senders never send that
+	if (c.Source == "udp" || c.Source == "udp2") && c.Unwrap == 0 {
+		// the senders' sample i of packet n is n+i: apart from the very first sample of a run none is zero
+		nblocks := int64(0)
+		e.mon.blockHook = func(b *dataBlock) {
+			nblocks++
+			if b == nil || b.err != nil || len(b.segments) == 0 || atomic.LoadInt64(&zeroBlock) != 0 {
+				return
+			}
+			n := 0
+			for _, sg := range b.segments {
+				for _, x := range sg.rawData {
+					if x != 0 {
+						return
+					}
+					n++
+				}
+			}
+			if n >= 8 {
+				atomic.StoreInt64(&zeroBlock, nblocks)
+			}
+		}
+	}
 	e.ds = &vMon{DataSource: inner, mon: e.mon}
 	e.baseline = c10Census()
 	running := false    // harness' knowledge: started and not yet stopped/ended
@@ -944,6 +967,9 @@ func c10Run(c c10Case) (v vVerdict) {
 	}
 	if failedStarts > 0 {
 		v.Classes = append(v.Classes, "write-start-failing-late")
+	}
+	if zb := atomic.LoadInt64(&zeroBlock); zb != 0 {
+		return vFailf("block-of-zeros", "block number %d of a run held only zeros on every channel; the senders' samples count up from the packet number and are never zero (but for the very first)", zb)
 	}
 	v.Classes = append(v.Classes, "source-"+c.Source)
 	if pausedRuns > 0 {
